@@ -1031,7 +1031,11 @@ theorem accept_sendTo {w : World} {st : S} (h : R w st) {s : Nat} {tx : MSock} (
     simp only [hne, if_true]
     refine ⟨st, ?_, h⟩
     rw [run_one]
-    simp [Sonic.Spec.Datagram.step, ht, hne]
+    -- the model's send errors are the kernel's (EMSGSIZE, EINVAL): never a refusal made by the library
+    have hnr : ¬ sendErr tx.kern dsta data = Errc.refused := by
+      unfold sendErr; repeat' split
+      all_goals simp
+    simp [Sonic.Spec.Datagram.step, ht, hne, hnr]
 
 theorem refines_send {w : World} {st : S} (h : R w st) (s : Nat) (dst : Dst) (data : List UInt8) (pick : Nat) :
     Refines w st (.send s dst data pick) := by
